@@ -9,10 +9,11 @@ import PatchModel.Lemmas.Cost
 namespace PatchModel.C08
 open PatchModel
 
-/-- the positions probed for one fuzz value never number more than the file has lines — whatever line the hunk states
+/-- the positions probed for one fuzz value never number more than the file has lines, plus one for the very end of the file
+    (D109; the bound was `size` before that) — whatever line the hunk states
     (the stated line enters only through `searchStart`, a `min`/`max` with the file size) -/
 theorem candidates_bounded (guess : Int) (minLine size : Nat) :
-    (candidates (searchStart guess minLine size) minLine size).length ≤ size := by
+    (candidates (searchStart guess minLine size) minLine size).length ≤ size + 1 := by
   exact Cost.candidates_length_le guess minLine size
 
 /-- the fuzz loop runs at most `context + 1` ≤ `hunk lines + 1` times, whatever -F says -/
@@ -49,9 +50,10 @@ theorem probes_bounded (content : List Line) (h : Hunk) (iw : Bool) (guess : Int
       · exact Nat.zero_le _
       · have hc := Cost.candidates_length_le guess minLine content.length
         split
-        · have := Cost.length_takeWhile_le
-            (fun q => !(hunkMatchesAt content h iw (fuzz + pc - max pc sc) (fuzz + sc - max pc sc) q))
-            (candidates (searchStart guess minLine content.length) minLine content.length)
+        · next p hfind =>
+          have := Cost.takeWhile_not_lt_of_find?
+            (hunkMatchesAt content h iw (fuzz + pc - max pc sc) (fuzz + sc - max pc sc))
+            (candidates (searchStart guess minLine content.length) minLine content.length) p hfind
           rw [Nat.succ_mul]; omega
         · have := ih (fuzz + 1)
           rw [Nat.succ_mul]; omega
